@@ -44,14 +44,18 @@ def tlc_gf2_transitions(wd, R, D):
     return lines, n
 
 
-def random_gf2_history(rng, R, D, length, skewed=False):
+def random_gf2_history(rng, R, D, length, skewed=False, pool=None):
     """skewed: operands of very different lengths (a few coordinates against most of the dimension) - the regime in which an
     implementation may switch to another algorithm (binary search of the short operand in the long one, galloping, ...)"""
     def sz():
         if not skewed:
             return rng.randint(0, min(D, 6))
         return rng.choice([0, 1, 2, 2, 3, 4, D // 3, D // 2, D - D // 8, D - 1, D])
-    lines = [gf2_reset_line([sorted(rng.sample(range(D), sz())) for _ in range(R)])]
+    # pool: the coordinates are drawn from this list instead of 0..D-1 (coordinates around 2^8, 2^16 and just below 2^31)
+    dom = pool if pool is not None else range(D)
+    if pool is not None:
+        D = len(pool)
+    lines = [gf2_reset_line([sorted(rng.sample(dom, sz())) for _ in range(R)])]
     ops = ['Unit', 'FromSet', 'Default', 'Copy', 'Move', 'Assign', 'MoveAssign', 'Plus', 'Plus', 'PlusAssign', 'PlusAssign', 'Dot', 'Dot', 'DotSet', 'Clear', 'Swap']
     if skewed:
         ops = ops + ['Dot'] * 8 + ['DotSet'] * 6 + ['FromSet'] * 3
@@ -61,8 +65,8 @@ def random_gf2_history(rng, R, D, length, skewed=False):
         if op in ('Move', 'MoveAssign', 'Swap') and a == d:
             a = (d + 1) % R
         if op == 'Unit':
-            a = rng.randrange(D)
-        s = sorted(rng.sample(range(D), sz() if skewed else rng.randint(0, min(D, 7)))) if op in ('FromSet', 'DotSet') else []
+            a = dom[rng.randrange(D)]
+        s = sorted(rng.sample(dom, sz() if skewed else rng.randint(0, min(D, 7)))) if op in ('FromSet', 'DotSet') else []
         lines.append(gf2_line({'op': op, 'd': d, 'a': a, 'b': b, 'set': s}))
     return lines
 
@@ -139,6 +143,10 @@ def check_C17(res, tier, seed, replay):
         for k in range(nh):
             hl += random_gf2_history(rng, 3, rng.choice([24, 40, 64, 100, 160]), 30, skewed=True)
         nh += nh
+        wide = list(range(0, 4)) + list(range(253, 259)) + list(range(65533, 65539)) + [16777215, 16777216, 16777217] + list(range(2147483640, 2147483647))
+        for k in range(60 if tier == 'quick' else 1000):
+            hl += random_gf2_history(rng, 3, 0, 30, pool=wide)
+        nh += 60 if tier == 'quick' else 1000
         trace2, ev2, v2 = run_script(res, exe, wd, 'gf2h', hl, 'Trace_GF2', 'Trace_GF2.cfg', '"op":"Reset"')
         res.add_validation(v2, nh)
         judge(res, v2, 'Trace_GF2')
@@ -156,10 +164,13 @@ def fp_reset_line(T, p, regs):
     return 'FPRESET %s %d %d %s' % (T, p, len(regs), ' '.join('%d %s' % (len(r), ' '.join('%d %d' % (i, v) for i, v in r)) for r in regs))
 
 
-def random_fp_history(rng, T, p, R, D, length, kmax=50, long_vectors=False):
+def random_fp_history(rng, T, p, R, D, length, kmax=50, long_vectors=False, pool=None):
+    dom = pool if pool is not None else range(D)
+    if pool is not None:
+        D = len(pool)
     regs = []
     for _ in range(R):
-        idx = sorted(rng.sample(range(D), rng.choice([0, 1, 2, D // 2, D - 1, D]) if long_vectors else rng.randint(0, min(D, 4))))
+        idx = sorted(rng.sample(dom, rng.choice([0, 1, 2, D // 2, D - 1, D]) if long_vectors else rng.randint(0, min(D, 4))))
         regs.append([(i, rng.randint(1, p - 1) if p > 1 else 1) for i in idx])
     lines = [fp_reset_line(T, p, regs)]
     ops = ['Unit', 'Copy', 'Assign', 'Plus', 'Plus', 'PlusAssign', 'PlusAssign', 'Scale', 'Scale', 'ScaleAssign', 'Dot', 'Dot', 'Clear']
@@ -168,7 +179,7 @@ def random_fp_history(rng, T, p, R, D, length, kmax=50, long_vectors=False):
         d, a, b = rng.randrange(R), rng.randrange(R), rng.randrange(R)
         k = 0
         if op == 'Unit':
-            a = rng.randrange(D)
+            a = dom[rng.randrange(D)]
         if op in ('Scale', 'ScaleAssign'):
             k = rng.choice([0, 1, -1, p, -p, 2 * p, rng.randint(-kmax, kmax), rng.randint(-kmax, kmax)])
         lines.append('FP %s %d %d %d %d' % (op, d, a, b, k))
@@ -239,6 +250,10 @@ def check_C18(res, tier, seed, replay):
         for k in range(nh // 3):       # long vectors against short ones (merge loops far from their ends, one operand exhausted early)
             hl += random_fp_history(rng, rng.choice(['int', 'long', 'cpp_int']), rng.choice([2, 3, 7, 31, 97]), 3, rng.choice([24, 48, 80]), 20, long_vectors=True)
         nh += nh // 3
+        wide = list(range(0, 3)) + list(range(254, 258)) + list(range(65534, 65538)) + [16777216, 16777217] + list(range(2147483642, 2147483647))
+        for k in range(40 if tier == 'quick' else 600):
+            hl += random_fp_history(rng, rng.choice(['int', 'long', 'cpp_int']), rng.choice([2, 3, 7, 97]), 3, 0, 25, pool=wide)
+        nh += 40 if tier == 'quick' else 600
         trace2, ev2, v2 = run_script(res, exe, wd, 'fp_hist', hl, 'Trace_FP', 'Trace_FP.cfg', '"op":"Reset"')
         res.add_validation(v2, nh)
         judge(res, v2, 'Trace_FP')
